@@ -60,8 +60,19 @@ class DPSKModulator(BaseModulator):
 
     def _create_constellation(self) -> None:
         """Create the DPSK constellation mapping."""
-        # Generate differential phase shifts
-        angles = torch.arange(0, self.order) * (2 * torch.pi / self.order)
+        # Generate differential phase shifts. forward() maps a bit group to the symbol index of the
+        # same value, so symbol i is labelled with the binary expansion of i for both labelings;
+        # with Gray coding symbol i sits at the phase position whose Gray code is i, which makes
+        # neighbouring phases differ in exactly one bit.
+        positions = torch.arange(0, self.order)
+        if self.gray_coding:
+            gray_inverse = positions.clone()
+            shift = positions >> 1
+            while torch.any(shift > 0):
+                gray_inverse = gray_inverse ^ shift
+                shift = shift >> 1
+            positions = gray_inverse
+        angles = positions * (2 * torch.pi / self.order)
 
         # For non-gray-coded, rotate constellation to make it different
         if not self.gray_coding:
@@ -75,19 +86,10 @@ class DPSKModulator(BaseModulator):
         # Create bit pattern mapping
         bit_patterns = torch.zeros(self.order, self._bits_per_symbol)
 
-        if self.gray_coding:
-            # Apply Gray coding
-            for i in range(self.order):
-                gray_idx = i ^ (i >> 1)  # Binary to Gray conversion
-                bin_str = format(gray_idx, f"0{self._bits_per_symbol}b")
-                for j, bit in enumerate(bin_str):
-                    bit_patterns[i, j] = int(bit)
-        else:
-            # Standard binary coding
-            for i in range(self.order):
-                bin_str = format(i, f"0{self._bits_per_symbol}b")
-                for j, bit in enumerate(bin_str):
-                    bit_patterns[i, j] = int(bit)
+        for i in range(self.order):
+            bin_str = format(i, f"0{self._bits_per_symbol}b")
+            for j, bit in enumerate(bin_str):
+                bit_patterns[i, j] = int(bit)
 
         self.register_buffer("constellation", constellation)
         self.register_buffer("bit_patterns", bit_patterns)
